@@ -20,7 +20,7 @@ def current(u, w=None, triples=None):
         for p in t.paths.get("ser", []) or []:
             if p.outcome != "ok":
                 continue
-            paths.append({"when": p.cond_show(), "term": p.gshow()})
+            paths.append({"when": p.cond_show(golden=True), "term": p.gshow()})
         # dedupe (paths differing only in irrelevant dynamic conditions)
         uniq = []
         for x in paths:
